@@ -59,7 +59,7 @@ TraceReq ==
   /\ IsEvent("req") /\ up
   /\ LET e == Trace[l] IN
      /\ C02on => /\ ReqOK(e.mac, e.res, e.idx)
-                 /\ e.res = "reply" => e.lease = lease /\ ~e.stop
+                 /\ e.res = "reply" => e.lease = lease
                  /\ e.res = "drop"  => e.stop
      /\ bound' = IF e.res = "reply" /\ e.mac \notin DOMAIN bound THEN Ext(bound, e.mac, e.idx) ELSE bound
      /\ promise' = IF e.res = "reply" THEN Ext(promise, e.mac, e.t0 + lease) ELSE promise
